@@ -92,8 +92,26 @@ let show_out (o : out) : string =
   | RKFVs l -> "kfv:" ^ String.concat "," (List.map (fun ((k, f), v) ->
         enc_bytes k ^ "/" ^ dec_of_n f ^ "=" ^ (match v with Some v -> enc_bytes v | None -> "~")) l)
 
+(* L2 (Art.v): shape of the radix tree, printed like ART.VerifDump *)
+let rec dump_art (b : Buffer.t) (t : art) : unit =
+  match t with
+  | Leaf k -> Buffer.add_string b ("L" ^ enc_bytes k)
+  | Node (plen, pfx, ipl, ch) ->
+      Buffer.add_string b (Printf.sprintf "N%d:%d:%s:%s(" (i_nat (kind_of (nchildren ch))) (i_nat plen) (enc_bytes pfx)
+                             (match ipl with Some k -> enc_bytes k | None -> "~"));
+      let rec go first c = match c with
+        | CNil -> ()
+        | CCons (by, t', r) ->
+            if not first then Buffer.add_char b ',';
+            Buffer.add_string b (Printf.sprintf "%02x=" (fint_of_n by)); dump_art b t'; go false r in
+      go true ch; Buffer.add_char b ')'
+let show_tree (o : art option) : string =
+  match o with None -> "nil" | Some t -> let b = Buffer.create 256 in dump_art b t; Buffer.contents b
+
 let () =
   let s0 = ref init0 and s1 = ref init1 in
+  let l2 : art option ref = ref None in
+  let l2checks = ref 0 and l2diffs = ref 0 in
   let seq = ref "" and idx = ref 0 and haz = ref false in
   let notes = ref [] and bad = ref false in
   let nseq = ref 0 and nops = ref 0 and nmut = ref 0 and mism = ref 0 and l0d = ref 0 and hazseq = ref 0 and l0seq = ref 0 in
@@ -109,7 +127,7 @@ let () =
   read_lines (fun line ->
     match split_tab line with
     | "SEQ" :: id :: cls :: _ ->
-        s0 := init0; s1 := init1; seq := id; idx := 0; haz := false; notes := []; bad := false; seq_l0 := false;
+        s0 := init0; s1 := init1; l2 := None; seq := id; idx := 0; haz := false; notes := []; bad := false; seq_l0 := false;
         Buffer.clear mutbuf; Buffer.clear out_lines; seq_struct := 0; seq_mut := 0;
         incr nseq; bump ("class:" ^ cls)
     | "END" :: _ ->
@@ -130,6 +148,14 @@ let () =
         let impl = String.concat " " res in
         incr nops;
         (match opf with
+         | ["tree"] ->
+             (* structure differential + the model's own map property: in-order(L2) = the keys of L1's table *)
+             let m = show_tree !l2 in
+             incr l2checks;
+             if m <> impl then begin incr mism; bad := true;
+               emit (Printf.sprintf "MISMATCH\t%s\t%d\ttree\timpl=%s\tl2=%s" !seq !idx impl m) end;
+             if keys_of_tree !l2 <> List.map fst !s1.keys1 then begin incr l2diffs; bad := true;
+               emit (Printf.sprintf "MISMATCH\t%s\t%d\ttree-inorder\timpl=L1-table\tl2=in-order differs" !seq !idx) end
          | ["seq"] ->
              let m = Printf.sprintf "ws:%s:%s" (dec_of_n !s1.wseq1) (dec_of_n !s1.sseq1) in
              if m <> impl then begin incr mism; bad := true;
@@ -151,6 +177,19 @@ let () =
                | OCheckpoint -> notes := (!idx, "cp " ^ show_out o1 ^ " depth=" ^ string_of_int (List.length s1'.stages1)) :: !notes
                | ORevert _ -> notes := (!idx, "revert " ^ String.concat " " opf ^ " -> " ^ show_out o1) :: !notes
                | _ -> ());
+              (match o with
+               | OSet (k, _, _) | OFlags (k, _) when List.length s1'.keys1 > List.length !s1.keys1 -> l2 := insert_root k !l2
+               | OGet k ->
+                   incr l2checks;
+                   if lookup k !l2 <> List.mem_assoc k !s1.keys1 then begin incr l2diffs; bad := true;
+                     emit (Printf.sprintf "MISMATCH\t%s\t%d\tl2-lookup %s\timpl=L1-table\tl2=search differs" !seq !idx (enc_bytes k)) end
+               | OIter (_, lo, _) when lo <> [] && !l2 <> None ->
+                   incr l2checks;
+                   let want = (try Some (List.find (fun k -> lex_cmp lo k <> Gt) (List.map fst !s1.keys1)) with Not_found -> None) in
+                   let got = (match !l2 with Some t -> seek_ge lo t | None -> None) in
+                   if got <> want then begin incr l2diffs; bad := true;
+                     emit (Printf.sprintf "MISMATCH\t%s\t%d\tl2-seek %s\timpl=L1-table\tl2=seek differs" !seq !idx (enc_bytes lo)) end
+               | _ -> ());
               s0 := s0'; s1 := s1';
               let m1 = show_out o1 and m0 = show_out o0 in
               if m1 <> impl then begin incr mism; bad := true;
@@ -159,6 +198,6 @@ let () =
                 emit (Printf.sprintf "L0DIFF\t%s\t%d\thaz=%d\t%s\timpl=%s\tl0=%s" !seq !idx (if !haz then 1 else 0) (String.concat " " opf) impl m0) end));
         incr idx
     | _ -> ());
-  Printf.printf "STATS\tseqs=%d\tops=%d\tmutators=%d\tmismatches=%d\tl0diffs=%d\thazard_seqs=%d\tl0diff_seqs=%d\tdistinct_nontrivial=%d\n"
-    !nseq !nops !nmut !mism !l0d !hazseq !l0seq !nontriv;
+  Printf.printf "STATS\tseqs=%d\tops=%d\tmutators=%d\tmismatches=%d\tl0diffs=%d\thazard_seqs=%d\tl0diff_seqs=%d\tdistinct_nontrivial=%d\tl2_checks=%d\tl2_diffs=%d\n"
+    !nseq !nops !nmut !mism !l0d !hazseq !l0seq !nontriv !l2checks !l2diffs;
   Hashtbl.iter (fun k v -> Printf.printf "COUNT\t%s\t%d\n" k v) counts
